@@ -15,6 +15,7 @@
 #include "galois/worklists/WorkList.h"
 #include "verif_rt.h"
 #include <map>
+#include <cstring>
 #include <unistd.h>
 
 using vh::kv; using vh::ks;
@@ -34,6 +35,13 @@ static void arm(int threads, uint64_t s) {
   verif::configure(cfg);
   verif::stream_on(true);
 }
+// The records of a scenario are held back until it ends.  On a heavily loaded machine the idle threads of a loop poll
+// thousands of times while the one thread with work waits for a CPU, and a scenario that normally has some 40,000 records
+// grows to millions; such a scenario is left out of the trace (an empty execution), never cut short -- a cut stream would
+// miss synchronisation edges and raise false alarms.
+static std::string g_pend, g_notes;
+static long g_pendN = 0, g_skipped = 0;
+static const long SCN_LIMIT = 1500000;
 static void dump() {
   static std::vector<verif::OpRec> buf(1 << 16);
   static std::map<const void*, int> ids;
@@ -60,8 +68,11 @@ static void dump() {
         version[x]++;
       }
       last[r.tid] = Last{x, (int)r.kind, (int)r.mo, version[x]};
-      fprintf(F, "{\"t\":%d,\"x\":%d,\"k\":%d,\"mo\":%d}\n", r.tid, x, (int)r.kind, (int)r.mo);
-      ++g_records;
+      if (++g_pendN <= SCN_LIMIT) {
+        char line[96];
+        int len = snprintf(line, sizeof line, "{\"t\":%d,\"x\":%d,\"k\":%d,\"mo\":%d}\n", r.tid, x, (int)r.kind, (int)r.mo);
+        g_pend.append(line, len);
+      }
     }
   }
 }
@@ -76,9 +87,15 @@ static void begin(const std::string& scn, int threads, uint64_t s) {
   fprintf(F, "{\"ev\":\"reset\",\"scn\":\"%s\",\"threads\":%d,\"mode\":\"%s\",\"seed\":%lld}\n", scn.c_str(), threads, g_mode.c_str(),
           (long long)(s % 1000000007));
 }
-static void finish() { fprintf(F, "{\"ev\":\"end\"}\n"); fflush(F); }
-static void note(const char* ev) { fprintf(F, "{\"ev\":\"%s\",\"scn\":\"%s\"}\n", ev, g_scn.c_str()); }
-static void onAbort(const char* why) { dump(); fprintf(F, "{\"ev\":\"hang\",\"why\":\"%s\",\"scn\":\"%s\"}\n", why, g_scn.c_str()); fflush(F); }
+static void flushPending() {
+  if (g_pendN <= SCN_LIMIT) { fwrite(g_pend.data(), 1, g_pend.size(), F); g_records += g_pendN; }
+  else { ++g_skipped; fprintf(stderr, "hb: scenario %s left out (%ld records: machine too busy)\n", g_scn.c_str(), g_pendN); }
+  fwrite(g_notes.data(), 1, g_notes.size(), F);      // what the scenario itself observed (overlap in a critical section) is never left out
+  g_pend.clear(); g_pendN = 0; g_notes.clear();
+}
+static void finish() { flushPending(); fprintf(F, "{\"ev\":\"end\"}\n"); fflush(F); }
+static void note(const char* ev) { char line[160]; int len = snprintf(line, sizeof line, "{\"ev\":\"%s\",\"scn\":\"%s\"}\n", ev, g_scn.c_str()); g_notes.append(line, len); }
+static void onAbort(const char* why) { if (strcmp(why, "runaway")) dump(); flushPending(); fprintf(F, "{\"ev\":\"hang\",\"why\":\"%s\",\"scn\":\"%s\"}\n", why, g_scn.c_str()); fflush(F); }
 
 #define PR(v) verif::plain((v), false)
 #define PW(v) verif::plain((v), true)
@@ -304,7 +321,7 @@ int main(int argc, char** argv) {
       default: forEachScenario<W::PerThreadChunkLIFO<2>>("PerThreadChunkLIFO<2>", t, rng.next()); break;
       }
     }
-  fprintf(stderr, "hb: %ld records\n", g_records);
+  fprintf(stderr, "hb: %ld records, %ld scenarios left out\n", g_records, g_skipped);
   fclose(F);
   return 0;
 }
